@@ -677,6 +677,8 @@ func runC17(c *Ctx) {
 		isHdrSlice: isHdrSlice, isClearBit: isClearBit, atomicAdd: atomicAdd})
 	// R17 (v_blocks_h.go)
 	c.vbhOwnBlockData("C17.R17", blocks, blockFn, arrange, free, arrangeGroup, freeGroup)
+	// R18 (x_c17_i.go)
+	c.xc17FailedCallKeepsCounter("C17.R18", avail, recount, arrange, free)
 
 	// R5 bounds siblings: every function that derives a segment number from an index parameter rejects idx<0 on the
 	// parameter itself (division truncates toward zero: testing the segment number lets -1..-(n-1) through) and
